@@ -81,6 +81,25 @@ def legal(d, v):
     return True
 
 
+def wf_desc(d):
+    """Well-formed descriptor in the sense of Spec/TlvWf.v (the hypothesis of the C08 theorems): Type numbers of
+    a level (fields and map value types) pairwise distinct, recursively.  Python happily builds classes that
+    violate this; for them only the model/implementation correspondence is checked, not the oracle."""
+    types = []
+    for t, fd in d[2]:
+        types.append(t)
+        if fd[0] == 'map':
+            types.append(fd[2])
+    if len(set(types)) != len(types):
+        return False
+    for t, fd in d[2]:
+        subs = [fd] if fd[0] == 'model' else [fd[1]] if fd[0] == 'rep' else [fd[3]] if fd[0] == 'map' else []
+        for sd in subs:
+            if sd[0] == 'model' and not wf_desc(sd):
+                return False
+    return True
+
+
 def shortest(w):
     """Every T and L of the (strict) element sequence w is in shortest form (one level)."""
     try:
@@ -147,6 +166,18 @@ def run_class(ctx, M, d, nvals, origin):
     rng = ctx.rng
     cls = d[3]
     fs = D.fields_sexp(d)
+    wf = wf_desc(d)
+    if not wf:
+        ctx.stat('descriptor.not-wf')
+
+    class _Quiet:
+        """oracle sink for descriptors outside the theorems' hypothesis"""
+        @staticmethod
+        def violation(*a, **k):
+            ctx.stat('oracle-skipped.not-wf')
+    real_ctx = ctx
+    if not wf:
+        ctx = type('CtxView', (), {'violation': _Quiet.violation, '__getattr__': lambda self, n: getattr(real_ctx, n)})()
     for _ in range(nvals):
         v = TG.rand_value(rng, d, big=False)
         if rng.random() < 0.02:
@@ -174,6 +205,19 @@ def run_class(ctx, M, d, nvals, origin):
                 ctx.violation('TlvModel.encode', 'legal-value-rejected', f'encode raises {enc[2]} on a legal assignment', case)
             continue
         w = enc[1]
+        # ---- the two-phase API into a caller-supplied, dirty buffer at an offset must write the same bytes
+        def two_phase():
+            markers = {}
+            n = obj[1].encoded_length(markers)
+            off = rng.choice([0, 1, 7])
+            buf = bytearray(b'\xaa' * (off + n + 3))
+            obj[1].encode(buf, off, markers)
+            return bytes(buf[:off]), bytes(buf[off:off + n]), bytes(buf[off + n:])
+        tp = impl(two_phase)
+        if tp[0] != 'ok' or tp[1][1] != w or set(tp[1][0]) - {0xaa} or set(tp[1][2]) - {0xaa}:
+            ctx.violation('TlvModel.encode(wire, offset, markers)', 'dirty-buffer-encoding',
+                          'encoding into a caller-supplied buffer at an offset does not write exactly the announced bytes',
+                          {**case, 'fresh': w, 'two_phase': tp[1] if tp[0] == 'ok' else tp[1:]})
         # ---- oracle: announced size, minimality, round trip
         if ln[0] == 'ok' and ln[1] != len(w):
             ctx.violation('TlvModel.encoded_length', 'size-mismatch', f'announced {ln[1]} produced {len(w)}', case)
